@@ -7,7 +7,9 @@
 EXTENDS Integers, Sequences, FiniteSets, TLC, Json, IOUtils
 
 Traces == JsonDeserialize(IOEnv.TRACE_FILE)
-DevSet == IF IOEnv.DEVS = "none" THEN {} ELSE {IOEnv.DEVS}
+DevSet == CASE IOEnv.DEVS = "none" -> {}
+            [] IOEnv.DEVS = "both" -> {"DelayBodyInRetryLoop", "FutureSwallowsTimeoutError"}
+            [] OTHER -> {IOEnv.DEVS}
 Threads == 1..4
 VARIABLES tid, l, obj, pend
 INSTANCE Deferred WITH Devs <- DevSet
